@@ -71,6 +71,9 @@ type Scenario struct {
 	// SoonAfter: the first round past the bound is placed within seconds of it
 	// (entries that wrongly survive the lease may have short lives of their own).
 	SoonAfter bool `json:"soon_after_bound,omitempty"`
+
+	// ---- restart scenarios only (index >= restartBase, restart.go) ------------
+	Restart *RestartSpec `json:"restart,omitempty"`
 }
 
 // AliasSpec describes the long-leased sibling zone and its aliases.
@@ -326,6 +329,9 @@ func (sc *Scenario) Shape() string {
 	if sc.Alias != nil {
 		shape += "/alias"
 	}
+	if rs := sc.Restart; rs != nil {
+		shape += fmt.Sprintf("/restart[s%d,e%d,b%d,%s,qmin%d]", rs.Sloppy, rs.Empty, rs.Bare, rs.Style, sc.QMin)
+	}
 	return shape
 }
 
@@ -355,6 +361,9 @@ func (sc *Scenario) String() string {
 	}
 	if sc.Focus != "" {
 		fmt.Fprintf(&b, " focus=%s dnssec-off=%v soon=%v", sc.Focus, sc.DNSSECOff, sc.SoonAfter)
+	}
+	if rs := sc.Restart; rs != nil {
+		fmt.Fprintf(&b, " restart[sloppy=L%d empty=%d style=%s short=L%d bare=L%d]", rs.Sloppy, rs.Empty, rs.Style, rs.Short, rs.Bare)
 	}
 	if sc.Alias != nil {
 		fmt.Fprintf(&b, " alias[signed=%v cname-ttl=%d targets-first=%v targets=%s]", sc.Alias.Signed, sc.Alias.CNAMETTL, sc.Alias.TargetsFirst, strings.Join(sc.Alias.Targets, ","))
